@@ -556,7 +556,9 @@ def model_to_assignment(model, terms=()) -> dict:
 
 
 def val_to_float(v):
-    if z3.is_rational_value(v) or z3.is_int_value(v):
+    if z3.is_int_value(v):
+        return float(v.as_long())
+    if z3.is_rational_value(v):
         fr = v.as_fraction()
         return float(fr)
     if z3.is_algebraic_value(v):
@@ -581,7 +583,9 @@ def evalnum(t, asg: dict, default=0.0):
         return r
 
     def _ev(t):
-        if z3.is_rational_value(t) or z3.is_int_value(t):
+        if z3.is_int_value(t):
+            return float(t.as_long())
+        if z3.is_rational_value(t):
             return float(t.as_fraction())
         if z3.is_algebraic_value(t):
             return float(t.approx(20).as_fraction())
